@@ -75,12 +75,12 @@ Print Assumptions C15_single_skips_non_pending.
    independent oracles !BAD:C15:prune-before-init and !BAD:C15:prune-incomplete on every run. *)
 
 Example C15_nonvacuous :
-  keyed (t_insert (t_empty false) (mkObj 1 1 Pending 1)) /\
-  res_consistent (t_insert (t_empty false) (mkObj 1 1 Pending 1)) [mkRes (mkObj 1 1 Pending 1) 1 1 1 false].
+  keyed (t_insert (t_empty false) (mkObj 1 1 Pending 1 0)) /\
+  res_consistent (t_insert (t_empty false) (mkObj 1 1 Pending 1 0)) [mkRes (mkObj 1 1 Pending 1 0) 1 1 1 false].
 Proof.
   split.
   - apply keyed_insert. intros k o r H. discriminate.
-  - split; [repeat constructor; intros []|]. intros r [Hr|[]] cur Hl. subst r. vm_compute in Hl. injection Hl as H. subst cur. reflexivity.
+  - split; [repeat constructor; intros []|]. intros r [Hr|[]] cur Hl. subst r. vm_compute in Hl. injection Hl as H. subst cur. split; reflexivity.
 Qed.
 
 (* ------------------------------------------------------------------ rev_identifies discharged (Reconciler/StatusOnly.v) *)
@@ -118,7 +118,8 @@ Proof. exact c15_inv_reach. Qed.
 Print Assumptions C15_status_invariant_reachable.
 
 (* a whole commitStatus on identified results leaves the statuses-erased table (keys in slot order with the
-   payload version of the live object, None for a deleted one) exactly as it was *)
+   payload version AND the other writers' data o_aux of the live object, None for a deleted one) exactly as
+   it was: the status write-back leaves other writers' data alone *)
 Theorem C15_commit_preserves_erased_table : forall fixed efb now res t q t' q', keyed t -> res_consistent t res ->
   commit_status_gen fixed efb now t q res = (t', q') -> erase t' = erase t.
 Proof. exact commit_status_erase. Qed.
@@ -126,7 +127,7 @@ Print Assumptions C15_commit_preserves_erased_table.
 
 (* (b) unconditionally, for every reachable state and the round executed from it: the table moves by user
    writes of the registered hooks (do_write on keys in K) during the change-stream phase, by a status-only
-   change (same erased table, deleted/absent keys untouched) at the first commitStatus, by user writes of
+   change (same erased table — payloads and other writers' data —, deleted/absent keys untouched) at the first commitStatus, by user writes of
    hooks during the retry phase, by a status-only change at the second commitStatus — and that is the table
    after the round. Every payload change in a round is a do_write. *)
 Theorem C15_round_commits_change_only_statuses : forall cf st, reach cf st ->
@@ -165,14 +166,62 @@ Example C15_status_only_nonvacuous :
   (let tr := round_trace ex_cf (fst ex_st0) (snd ex_st0) in
    map (fun r => (o_pk (r_obj r), o_ver (r_obj r), r_rev r, r_ok r)) (tr_res1 tr) = [(1, 1, 1, false); (2, 2, 2, true)] /\
    tr_res2 tr = [] /\
-   erase (e_tab (fst ex_st0)) = [(1, Some 1); (2, Some 2)] /\
-   erase (e_tab (tr_e1 tr)) = [(1, Some 1); (2, Some 3)] /\
-   erase (tr_t1 tr) = [(1, Some 1); (2, Some 3)] /\
+   erase (e_tab (fst ex_st0)) = [(1, Some (1, 0)); (2, Some (2, 0))] /\
+   erase (e_tab (tr_e1 tr)) = [(1, Some (1, 0)); (2, Some (3, 0))] /\
+   erase (tr_t1 tr) = [(1, Some (1, 0)); (2, Some (3, 0))] /\
    live_objs (tr_t2 tr) = [(1, 1, 3); (2, 3, 0)]) /\
   (let tr := round_trace ex_cf (fst ex_st1) (snd ex_st1) in
    map (fun r => (o_pk (r_obj r), o_ver (r_obj r), r_rev r, r_ok r)) (tr_res1 tr) = [(2, 3, 3, true)] /\
    map (fun r => (o_pk (r_obj r), o_ver (r_obj r), r_rev r, r_ok r)) (tr_res2 tr) = [(1, 1, 4, true)] /\
-   erase (tr_t2 tr) = [(1, Some 1); (2, Some 3)] /\
+   erase (tr_t2 tr) = [(1, Some (1, 0)); (2, Some (3, 0))] /\
    live_objs (tr_t2 tr) = [(1, 1, 2); (2, 3, 2)]) /\
   hook_keys (fst ex_st0) 2 /\ ~ hook_keys (fst ex_st0) 1.
 Proof. exact ex_traces. Qed.
+
+(* ------------------------------------------------------------------ defect D15 (fixed by 1583841) *)
+From SV Require Import Reconciler.Refuted.
+
+(* the code before the fix (commit_one_stale: after the status-conflict fallback the retry is queued with the
+   stale reconciled object): on the history fail 1 0 / fail 1 1 / put 1 / statx 1 / sleep 100 the foreign
+   status write sets aux = `written`; the retry queued at the fallback carries aux 0 for revision 4 at
+   which the table holds aux `written`; after the successful retry the table holds aux `final` <> `written`:
+   the other writer's data has been reverted *)
+Theorem C15_stale_retry_clobbers_refuted :
+  exists written final,
+    run_d15 true = ([(1, 1, kind_code Error, written)], ([(0, 4)], Some (written, 4)), [(1, 1, kind_code Done, final)], 3) /\
+    final <> written.
+Proof. exact stale_retry_clobbers_refuted. Qed.
+Print Assumptions C15_stale_retry_clobbers_refuted.
+
+(* the same history with the code as it is: the retry is queued with the object just written, aux survives *)
+Theorem C15_stale_retry_fixed :
+  run_d15 false = ([(1, 1, kind_code Error, 1)], ([(1, 4)], Some (1, 4)), [(1, 1, kind_code Done, 1)], 3).
+Proof. exact stale_retry_fixed. Qed.
+Print Assumptions C15_stale_retry_fixed.
+
+(* where exactly the old variant breaks the invariant behind C15_results_identify_versions: a failed
+   operation committed through the fallback onto an object with different foreign data leaves a retry item
+   that no longer identifies a version (StatusOnly.J1) *)
+Theorem C15_stale_fallback_breaks_invariant : forall fixed efb now t q r t' q' cur rv, twf t ->
+  t_live t (o_pk (r_obj r)) = Some (cur, rv) -> rv <> r_rev r -> fallback_ok efb cur r = true ->
+  r_ok r = false -> o_aux cur <> o_aux (r_obj r) ->
+  commit_one_stale fixed efb now (t, q) r = (t', q') ->
+  exists it, find_item (o_pk (r_obj r)) (q_items q') = Some it /\ ri_del it = false /\
+             ~ J1 t' (ri_obj it) (ri_rev it).
+Proof. exact stale_fallback_breaks_J1. Qed.
+Print Assumptions C15_stale_fallback_breaks_invariant.
+
+(* non-vacuity for the foreign data: the D15 history is a reachable state of the code as it is; its round
+   commits the failed retry through the fallback, the erased table (payload 1, aux 1) is untouched and the
+   retry is queued with the written object (aux 1) at the written revision *)
+Example C15_d15_history_nonvacuous :
+  reach d15_cf d15_st3 /\
+  (let tr := round_trace d15_cf (fst d15_st3) (snd d15_st3) in
+   tr_res1 tr = [] /\
+   map (fun r => (o_pk (r_obj r), o_ver (r_obj r), o_aux (r_obj r), r_rev r, r_orig r, r_ok r)) (tr_res2 tr) = [(1, 1, 0, 2, 1, false)] /\
+   t_live (e_tab (tr_e3 tr)) 1 = Some (mkObj 1 1 Error 2 1, 3) /\
+   erase (e_tab (tr_e3 tr)) = [(1, Some (1, 1))] /\
+   erase (tr_t2 tr) = [(1, Some (1, 1))] /\
+   t_live (tr_t2 tr) 1 = Some (mkObj 1 1 Error 3 1, 4) /\
+   map (fun it => (ri_obj it, ri_rev it, ri_orig it)) (q_items (tr_q4 tr)) = [(mkObj 1 1 Error 3 1, 4, 1)]).
+Proof. exact d15_trace. Qed.
